@@ -8,7 +8,7 @@ class C05(Prop):
                 "C05_chunks_all_but_last_full", "C05_built_shape", "C05_layout_represents", "C05_search_bytes_eq_scan"]
     RULE = ("exhaustive over block counts n and fan-outs b (quick n<=40,b<=5; thorough n<=120 plus sizes around b^k up to 700, b<=9), "
             "three section layouts (one chromosome monotone ends, several chromosomes, non-monotone ends as in bigBed), plus 130-1030 chromosomes with 1-2 blocks each under fan-outs 2..256, "
-            "queries starting/ending on every chosen section boundary and one base either side; a public-API stage (real writer and reader, short reads, zoom query before each main query on the same reader); "
+            "queries starting/ending on every chosen section boundary and one base either side; a public-API stage (real writer and reader, short reads, zoom query before each main query on the same reader, every query answered by a plain and by a caching reader in the same order); "
             "non-trivial = at least 2 sections; distinct = distinct case text")
     CORRESPONDENCE = "R-tree index bytes and search answers of Model/RTree.v = get_rtreeindex/write_rtreeindex/search_cir_tree_inner"
     TRUSTED = ["verif_hooks::rtree_index_bytes / rtree_search wrappers in /repo (cfg bigtools_verif)"]
